@@ -54,12 +54,20 @@ func genRedefScenario(r *rng) (*scenario, *filterSpec, *filterSpec) {
 	sc := &scenario{errOwner: map[int]int{}}
 	types := []int{0, 1, 2, 3, 4, 5}
 	nameTy := map[string]int{"a": types[r.intn(6)], "b": types[r.intn(6)], "c": types[r.intn(6)]}
+	// one scenario in four carries subtype labels (outside C08's premise; Redefine must still return)
+	sc.Subs = r.chance(1, 4)
+	sub := func() string {
+		if sc.Subs && r.chance(1, 2) {
+			return []string{"x", "y"}[r.intn(2)]
+		}
+		return ""
+	}
 	mkLab := func() lab {
 		if r.chance(1, 2) {
 			n := []string{"a", "b", "c"}[r.intn(3)]
-			return lab{Name: n, Ty: nameTy[n]}
+			return lab{Name: n, Ty: nameTy[n], Sub: sub()}
 		}
-		return lab{Ty: types[r.intn(6)]}
+		return lab{Ty: types[r.intn(6)], Sub: sub()}
 	}
 	distinct := func(n int) []lab {
 		var out []lab
@@ -222,7 +230,7 @@ func genRedef(w *bufio.Writer, r *rng, id int) {
 		fmt.Fprintf(w, "scn redef %d builderr\nbuilderr %s\nend\n", id, strings.ReplaceAll(err.Error(), "\n", " "))
 		return
 	}
-	sc.header(w, "redef", id, fmt.Sprintf("fin=%s finnest=%d fout=%s", fin.String(), nestOf(fin), fout.String()))
+	sc.header(w, "redef", id, fmt.Sprintf("fin=%s finnest=%d fout=%s subs=%v", fin.String(), nestOf(fin), fout.String(), sc.Subs))
 	var extraFilters []am.Arg
 	if fin != nil {
 		extraFilters = append(extraFilters, am.FilterInput(fin.mk()))
@@ -250,7 +258,7 @@ func genRedef(w *bufio.Writer, r *rng, id int) {
 		}
 	}
 	fmt.Fprintf(w, "end\n")
-	if newFn == nil {
+	if newFn == nil || sc.Subs {
 		return
 	}
 	// second block: call the redefined function with one value per declared input; the inner Call
